@@ -22,6 +22,15 @@ def replay_proxy(args):
         want = 'Call/to:%d/tag:6/timeout:%d/what:[12]/variant:v/meta:Some([9])' % (pid, tmo)
         if o['frames'] != [want] or o['pending'] != [2, 4, 6] or o['counter'] != 6 or o['resolved']:
             bad.append('%s: expected frame %s, pending [2,4,6], counter 6: %s' % (kind, want, o))
+    # tags never repeat, also when nothing is pending (an abandoned call's late reply must not meet a reused tag)
+    o = proxy(pid, 5, [], [], None, 'Call/no-timeout')
+    obs['call_idle'] = o
+    if o['frames'][:1] != ['Call/to:%d/tag:6/timeout:-1/what:[12]/variant:v/meta:Some([9])' % pid] or o['counter'] != 6:
+        bad.append('Call on an idle proxy whose counter is 5 must use tag 6: %s' % o)
+    o = proxy(pid, 5, [3], [1], None, 'Call/no-timeout')
+    obs['call_after_cleanup'] = o
+    if not o['frames'] or '/tag:6/' not in o['frames'][0] or o['counter'] != 6:
+        bad.append('Call after the only pending (closed) request was cleaned up must still use tag 6: %s' % o)
     o = proxy(pid, 5, [2, 4], [0, 0], None, 'Call/timeout', session_dead=True)
     obs['call_session_dead'] = o
     if o['pending'] != [2, 4]:
